@@ -119,7 +119,11 @@ def extract_data(model):
 
 
 class VRng:
-    """Controlled answers for numpy.random.randint / uniform / seed."""
+    """Controlled answers for numpy.random.randint / uniform.
+
+    The k-th call of each kind takes the k-th queued answer of that kind (default answer once the queue is empty),
+    so the seam does not depend on the order in which the sampler interleaves the two kinds of draws.
+    numpy.random.seed keeps working (any other numpy draw stays reproducible)."""
 
     def __init__(self):
         self.queue = []
@@ -129,23 +133,27 @@ class VRng:
     def install(self):
         import numpy as np
 
-        self._orig = (np.random.randint, np.random.uniform, np.random.seed)
+        self._orig = (np.random.randint, np.random.uniform)
         np.random.randint = self.randint
         np.random.uniform = self.uniform
-        np.random.seed = lambda *a, **k: None
 
     def uninstall(self):
         import numpy as np
 
-        np.random.randint, np.random.uniform, np.random.seed = self._orig
+        np.random.randint, np.random.uniform = self._orig
+
+    def _next(self, kind, default):
+        for i, ans in enumerate(self.queue):
+            if ans[0] == kind:
+                return self.queue.pop(i)
+        return (kind, default)
 
     def randint(self, low, high=None, size=None, **kw):
         n = low if high is None else high - low
+        base = 0 if high is None else low
         self.n_randint = n
-        ans = self.queue.pop(0) if self.queue else ("r", 0)
-        if ans[0] != "r":
-            raise RuntimeError("answer sequence out of step (expected randint)")
-        v = min(ans[1], n - 1)
+        ans = self._next("r", 0)
+        v = base + min(ans[1], n - 1)
         self.consumed.append(("r", v))
         if size is not None:
             import numpy as np
@@ -154,12 +162,14 @@ class VRng:
         return v
 
     def uniform(self, a=0.0, b=1.0, size=None):
-        ans = self.queue.pop(0) if self.queue else ("u", "mid")
-        if ans[0] != "u":
-            raise RuntimeError("answer sequence out of step (expected uniform)")
+        ans = self._next("u", "mid")
         k = ans[1]
         v = {"mid": (a + b) / 2, "lo": a, "lo+": a + EPS * (b - a), "hi-": b - EPS * (b - a), "q3": a + 0.75 * (b - a)}[k]
         self.consumed.append(("u", k))
+        if size is not None:
+            import numpy as np
+
+            return np.full(size, v)
         return v
 
 
@@ -258,9 +268,8 @@ def explore_sampler(mname, model, method, depth, dev_bound, stats):
                 try:
                     for df, space in run_path(path):
                         check_rows(df, path, space)
+                    stats["answers_consumed"] = stats.get("answers_consumed", 0) + len(rng.consumed)
                 except RuntimeError as exc:
-                    if "out of step" in str(exc):
-                        raise
                     if "Cannot escape sampling region" in str(exc):
                         # documented refusal; with a deterministic answer source every retry repeats itself
                         stats["refused_cannot_escape"] = stats.get("refused_cannot_escape", 0) + 1
@@ -416,7 +425,9 @@ def explore(ctx):
                 "to depth 2 and depth %d with <=%d non-default answers, alternating reaction and variable space; every point "
                 "checked against S v = 0, bounds and user constraints taken from the original model; finite menus seeds "
                 "{0,1,42} x n {1,3,4} x thinning {1,2,5} x methods x processes with the real seeded source" % (depth, dev),
-        "exhaustive": True, "answer_paths": stats.get("paths", 0), "points_checked": stats.get("points", 0),
+        "exhaustive": stats.get("answers_consumed", 0) > 0, "answer_paths": stats.get("paths", 0),
+        "random_answers_consumed_by_the_samplers": stats.get("answers_consumed", 0),
+        "points_checked": stats.get("points", 0),
         "menu_calls": stats.get("menu_calls", 0),
     })
     ctx.sample({"model": "forced", "method": "achr", "answers": [[3, "hi"], [0, "lo+"], [5, "mid"]]})
